@@ -308,6 +308,10 @@ func (t *tlopen) handle(cs *connState) message {
 	}
 	defer ref.DecRef()
 
+	// One open at a time: opened is set only after File.Open returned.
+	ref.openMu.Lock()
+	defer ref.openMu.Unlock()
+
 	var (
 		qid    QID
 		ioUnit uint32
